@@ -247,7 +247,7 @@ def job_chain_subband(T, n, asc):
 
 
 # ---------------------------------------------------------------- (H) histories on real files
-OPS = ('get_waterfall', 'copy', 'save_load', 'slice', 'dedrift', 'timesel_load', 'edit_inplace', 'failed_save')
+OPS = ('get_waterfall', 'copy', 'save_load', 'slice', 'dedrift', 'timesel_load', 'edit_inplace', 'failed_save', 'retime')
 
 
 def apply_history(stg, fr, ops, ext, tmp, tag):
@@ -266,6 +266,9 @@ def apply_history(stg, fr, ops, ext, tmp, tag):
                 (fr.save_fil if ext == 'fil' else fr.save_h5)(os.path.join(tmp, 'no_such_dir', f'{tag}_{k}.{ext}'))
             except Exception:
                 pass
+        elif op == 'retime':
+            # the start time is re-assigned after construction / loading (what Cadence.overwrite_times does to its frames)
+            fr.t_start = fr.t_start + 3600.0
         elif op == 'edit_inplace':
             # what add_signal / add_noise do: the SAME data array is modified in place (values stay exact in float32)
             fr.data += 1024.0
